@@ -27,6 +27,7 @@ SPEC = {
         {"name": "plan_codec", "run": "^TestPlanCodec$", "quick": B(30000, 1), "thorough": B(800000, 1, 3000)},
         {"name": "chunk_codec", "run": "^TestChunkCodec$", "quick": B(10000, 2), "thorough": B(200000, 2, 3000)},
     ],
+    "fuzz": [{"target": "FuzzExprRD", "seconds": 240}],
 }
 
 META = {
